@@ -53,25 +53,52 @@ def run(thorough=False):
             q = "(assert true)"
         queries.append(q)
         meta.append({"block": bb, "format": kind, "type": ty, "shape_ok": ok_shape})
+    n_hex = len(queries)
+    try:
+        cq, cm = canonical_obligations(mir)
+    except Exception as e:  # noqa
+        log("  mirsmt C55: canonical printing: cannot analyse (%s)" % e)
+        return {"exit": EXIT_INCONCLUSIVE, "mirsmt_error": str(e)}
+    queries += cq
+    meta += cm
     br = smt.check_batch(queries, thorough=thorough)
     res = {"evaluations": len(queries), "distinct_nontrivial": 0, "samples": [],
-           "mirsmt_regions": ["heap_print::char_to_string (format! arm)"], "mirsmt_seconds": br["z3_s"]}
+           "mirsmt_regions": ["heap_print::char_to_string (format! arm)",
+                              "every function of heap_print.rs that emits an operator token"],
+           "mirsmt_seconds": br["z3_s"]}
     if br["results"] is None:
         res["exit"] = EXIT_INCONCLUSIVE
         return res
-    viol = []
-    for m, r in zip(meta, br["results"]):
+    viol, cviol = [], []
+    for m, r in zip(meta[n_hex:], br["results"][n_hex:]):
+        if r["answer"] == "unsat":
+            res["distinct_nontrivial"] += 1
+        else:
+            cviol.append({**m, "answer": r["answer"]})
+        res["samples"].append({"query": m["obligation"], "answer": r["answer"]})
+    if cviol:
+        res["mirsmt_violations"] = cviol
+        from .. import prolog
+        rp = prolog.replay_canonical(cviol)
+        if rp["reproduced"]:
+            log("VIOLATION property=C55 replay=%s" % rp["path"])
+            res["exit_canonical"] = EXIT_VIOLATION
+        else:
+            log("  mirsmt C55: the write_canonical replay answers as specified (%s) -> inconclusive" % rp.get("why"))
+            res["exit_canonical"] = EXIT_INCONCLUSIVE
+    for m, r in zip(meta[:n_hex], br["results"][:n_hex]):
         good = r["answer"] == "unsat" and m["shape_ok"]
         res["distinct_nontrivial"] += good
         if not good:
             viol.append({**m, "answer": r["answer"]})
         res["samples"].append({"query": "char_to_string: the hex escape prints the whole code point (%s of a %s)" % (
             m["format"], m["type"]), "answer": r["answer"] if m["shape_ok"] else "shape not recognised"})
-    log("  mirsmt C55: %d format argument(s) in char_to_string, %d print the whole code point, %d do not "
-        "(z3 %.2fs)" % (len(queries), res["distinct_nontrivial"], len(viol), br["z3_s"]))
+    log("  mirsmt C55: %d format argument(s) in char_to_string + %d operator-token sites: %d obligations hold, "
+        "%d + %d do not (z3 %.2fs)" % (n_hex, len(queries) - n_hex, res["distinct_nontrivial"], len(viol),
+                                       len(cviol), br["z3_s"]))
     res["exit"] = EXIT_OK
     if viol:
-        res["mirsmt_violations"] = viol
+        res.setdefault("mirsmt_violations", []).extend(viol)
         from .. import prolog
         rp = prolog.replay_hex_escapes(viol)
         if rp["reproduced"]:
@@ -80,4 +107,55 @@ def run(thorough=False):
         else:
             log("  mirsmt C55: the escape replay answers as specified (%s) -> inconclusive" % rp.get("why"))
             res["exit"] = EXIT_INCONCLUSIVE
+    ec = res.pop("exit_canonical", EXIT_OK)
+    if ec == EXIT_VIOLATION or (ec == EXIT_INCONCLUSIVE and res["exit"] == EXIT_OK):
+        res["exit"] = ec
     return res
+
+
+def canonical_obligations(mir):
+    """write_canonical / ignore_ops(true): operator notation is never produced. Every function of
+    heap_print.rs that pushes TokenOrRedirect::Op itself or calls the emitter `enqueue_op` is found
+    from the MIR; on each of its paths that does so, the printer's `ignore_ops` flag must have been
+    read and found false (z3: emits => asked_and_false, per path). The emitter itself and derived
+    Clone impls are not sites."""
+    io_idx = util.struct_field_index("src/heap_print.rs", "HCPrinter", "ignore_ops")
+    queries, meta = [], []
+    for n in sorted(mir.index):
+        if not n.startswith("heap_print::") or "closure" in n:
+            continue
+        short = n.split("::")[-1]
+        if short in ("enqueue_op", "clone", "fmt"):
+            continue
+        b = mir.body(n)
+        direct = any(re.search(r"TokenOrRedirect::Op\(", l) for ls in b.blocks.values() for l in ls)
+        calls = any(re.search(r"::enqueue_op\(", ls[-1]) for ls in b.blocks.values())
+        if not (direct or calls):
+            continue
+        heads = util.back_edge_targets(b)
+        paths = []
+        for entry in ["bb0"] + list(heads):
+            paths += core.Executor(b, stop_blocks=tuple(heads), max_depth=500, max_paths=8000).run(entry)
+        emit_paths, unguarded = 0, 0
+        for p in paths:
+            emits = any(e[0] == "call" and e[1].endswith("::enqueue_op") for e in p.events) or any(
+                e[0] == "call" and e[1].endswith("::push") and e[2] and len(e[2]) > 1 and
+                isinstance(e[2][1], tuple) and e[2][1][0] == "agg" and e[2][1][1].endswith("TokenOrRedirect::Op")
+                for e in p.events)
+            if not emits:
+                continue
+            emit_paths += 1
+            g = [c for c in p.conds if c[0][0] == "proj" and c[0][2] == ".%d" % io_idx]
+            asked_false = bool(g) and all((c[1] == "==" and c[2] == 0) for c in g)
+            if not asked_false:
+                unguarded += 1
+        if emit_paths == 0:
+            raise core.Unsupported("%s: operator token site not reached by any path" % short)
+        queries.append("(declare-const emits Bool)\n(declare-const asked_false Bool)\n"
+                       "(assert (and emits (= asked_false %s)))\n(assert (not (=> emits asked_false)))" % (
+                           "false" if unguarded else "true"))
+        meta.append({"fn": short, "obligation": "%s: operator notation only when ignore_ops is false (%d emitting "
+                     "paths, %d without the test)" % (short, emit_paths, unguarded)})
+    if not meta:
+        raise core.Unsupported("no operator-token site found in heap_print.rs")
+    return queries, meta
